@@ -5,8 +5,6 @@ import (
 	"math/big"
 	"sync"
 
-	h "github.com/emmansun/gmsm/verifhook"
-
 	"verifh/mon"
 	"verifh/ref/bn"
 )
